@@ -29,7 +29,9 @@ def typedef_match_fn(ctx, rid, role, out_pred, crate=D):
     hits = []
     for b, ms in q.fns_with_match_on(ctx.P, lambda t: t.startswith("scale_info::TypeDef<"), (crate,), ret_pred=out_pred):
         # dispatching matches only: every arm names a variant (no catch-all)
-        full = [m for m in ms if "_" not in arms_by_variant(m)]
+        # .. and the arms work on the payload (most of them bind it): a match that only classifies (`Composite(_) => "struct "`) is not the dispatch
+        full = [m for m in ms if "_" not in arms_by_variant(m)
+                and 2 * sum(1 for a in m["arms"] if any(x.get("k") == "Bind" for x in walk(a["pat"]))) >= len(m["arms"])]
         if full:
             hits.append((b, full))
     return q.anchor_fn(ctx, rid, role, hits)
